@@ -210,6 +210,20 @@ func checkInfo(ids []ident, feats []string, forms []formSpec, typeFirst bool) *n
 		if got != got2 {
 			return &nd.Violation{Sig: "hash:Hash-differs-from-AppendHash", Msg: fmt.Sprintf("%s %s: Hash=%s AppendHash(nil)=%s", describe(ids, feats, forms), h.name, got, got2)}
 		}
+		// empty destinations other than nil: spare capacity (a reused buffer).
+		// (The statement speaks of empty destinations only; with a non-empty
+		// one the library encodes prefix and digest together - an observation,
+		// not judged here.)
+		for _, dst := range [][]byte{make([]byte, 0, 64), make([]byte, 0, 7), make([]byte, 0, 200)[:0:100]} {
+			pre := string(dst)
+			var got3 string
+			if p := nd.Catch(func() { got3 = string(buildInfo(ids, feats, forms, typeFirst).AppendHash(dst, h.mk())) }); p != nil {
+				return &nd.Violation{Sig: "hash:append:" + p.Sig(), Msg: fmt.Sprintf("%s: panic %s", describe(ids, feats, forms), p.Value)}
+			}
+			if got3 != pre+got {
+				return &nd.Violation{Sig: "hash:AppendHash-depends-on-destination", Msg: fmt.Sprintf("%s %s: Hash=%s, AppendHash(dst with len %d cap %d)=%s", describe(ids, feats, forms), h.name, got, len(dst), cap(dst), got3)}
+			}
+		}
 		if comparable {
 			if want := refHash(ids, feats, forms, h.mk()); got != want {
 				return &nd.Violation{Sig: "hash:differs-from-xep-0115:" + part(ids, feats, forms), Msg: fmt.Sprintf("%s %s: got %s, XEP-0115 5.1 construction %s", describe(ids, feats, forms), h.name, got, want)}
@@ -433,7 +447,7 @@ func init() {
 		ID:    "C20",
 		Level: "exploration",
 		Rule: "every ordered selection (so every permutation of every subset) of <=N identities and <=N features from pools with prefix-related / non-ASCII / '<' names; every list of <=2 forms, each with/without FORM_TYPE (field first or last), every ordered selection of fields and of values, all field kinds; info values decoded from XML with empty and malformed forms in both orders; " +
-			"x 4 hash functions, through Hash and AppendHash(nil), against a literal transcription of XEP-0115 5.1 anchored on the XEP's two worked examples. Non-trivial = distinct info value with at least two items in some dimension (a real permutation) or at least one form.",
+			"x 4 hash functions, through Hash, AppendHash(nil) and AppendHash into empty buffers with spare capacity, against a literal transcription of XEP-0115 5.1 anchored on the XEP's two worked examples. Non-trivial = distinct info value with at least two items in some dimension (a real permutation) or at least one form.",
 		Assumptions: []string{"forms without FORM_TYPE or with duplicate FORM_TYPEs have no defined 5.1 value: only order-independence and no-panic are required for them"},
 		Parts: func(tier string) []drv.Part {
 			n, mf, mv, budget := 3, 2, 2, 100*time.Second
